@@ -225,3 +225,4 @@ _c.region = "body"
 _c.required_asserts = []
 _c.rtc_py = True
 _c.array_inputs_are_arrays = True
+_c.amax_spec = True
